@@ -203,8 +203,11 @@ impl TaskQueue {
             Entry::Vacant(_) => {}
             Entry::Occupied(mut e) => match e.get_mut() {
                 OneOrMoreTaskIds::One(v) => {
-                    assert_eq!(*v, task_id);
-                    e.remove();
+                    // The removed task does not have to be in the queue
+                    // (e.g. a task that still waits for its dependencies)
+                    if *v == task_id {
+                        e.remove();
+                    }
                 }
                 OneOrMoreTaskIds::More(tasks) => {
                     tasks.remove(&task_id);
